@@ -452,6 +452,14 @@ bool apply_wire_fault(const Case& c, const model::Params& p, const model::Key& k
     d.pk[1 + field * p.ios + (b >> 3)] ^= (uint8_t)(0x80 >> (b & 7));
     d.fault_desc = "public key bit " + std::to_string(bit) + " flipped";
     stat("flip_public_key");
+  } else if (wf == "garbagepk") {
+    // an arbitrary in-memory public key: any of the 256 parameter bytes, arbitrary field bytes (padding bits included)
+    int q = (c.u("n") & 1) ? p.id : (int)(c.u("bit") % 256);
+    d.pk = r.take(std::max<size_t>(tc_sizeof_publickey, 1 + 2 * (size_t)p.ios));
+    d.pk[0] = (uint8_t)q;
+    d.vparam = (q >= 1 && q <= 12) ? q : p.id;
+    d.fault_desc = "arbitrary bytes as in-memory public key, parameter byte " + std::to_string(q);
+    stat("garbage_public_key");
   } else if (wf == "misroute") {
     int q = (int)c.i("param2", 0);
     if (q == 0 || q == p.id)
@@ -562,8 +570,8 @@ void op_verify(const Case& c, TaskCtx& t, Outcome& o) {
       t.stats->hit("fault.wire_near_miss_public_key");
   } else if (!apply_wire_fault(c, p, k, msg, hi.sig, d, t, o))
     return;
-  if (d.vparam != param && surf == 1)
-    surf = 0; // misrouting is expressed through the parameter byte of the generic surface
+  if ((d.vparam != param || c.s("wf") == "garbagepk") && surf == 1)
+    surf = 0; // misrouting / arbitrary parameter bytes are expressed through the parameter byte of the generic surface
   const model::Params& vp = *model::params(d.vparam);
   // place inputs: exact-size, last byte before an unmapped page, read-only
   bool edge = c.s("place", "edge") == "edge";
